@@ -55,6 +55,22 @@ PROPS = {
         families=[("core", NONE, 150), ("time", NONE, 100)],
         projection="C02", monitors=["C02"],
     ),
+    "C07": dict(
+        props_file="Props/C07.v",
+        families=[("core", NONE, 250), ("hostile", NONE, 50)],
+        projection="C07", monitors=["C07"],
+        level_note="Causes of ending, no spontaneous ending and reference accounting are proved; 'eventually ends' rests on the fairness of the tokio scheduler (a woken task is eventually polled), which is outside the model (partial).",
+    ),
+    "C11": dict(
+        props_file="Props/C11.v",
+        families=[("core", NONE, 200), ("hostile", NONE, 50), ("fault", NONE, 50)],
+        projection="C11", monitors=["C11"],
+    ),
+    "C12": dict(
+        props_file="Props/C12.v",
+        families=[("multi", NONE, 200), ("fault", NONE, 100)],
+        projection="C12", monitors=["C03", "C04", "C05", "C11"],
+    ),
     "C08": dict(
         props_file="Props/C08.v",
         families=[("core", NONE, 200), ("fault", NONE, 100)],
